@@ -25,6 +25,10 @@ type specEnv struct {
 	pkgPath     string
 	calleeCtx   bool // evaluating a callee's contract at a call site: identifiers are only vars
 	preferCells bool // loop invariants: names denote current values of locals
+	// bctr numbers the bound variables of one clause evaluation: re-evaluating the same clause in another
+	// state yields the same bound variables, so unchanged quantified facts stay syntactically identical
+	bctr        *int
+	cur         *state // inside old(...): the current state (values of non-parameter locals)
 	clause      *Clause
 	specDepth   int
 	callID      *Term
@@ -59,7 +63,7 @@ func (ex *executor) mkEnv(c *Clause, st, old *state, vars map[string]Value) *spe
 			vars[k] = v
 		}
 	}
-	return &specEnv{ex: ex, st: st, old: old, vars: vars, pkgPath: pkg, preferCells: true, clause: c}
+	return &specEnv{ex: ex, st: st, old: old, vars: vars, pkgPath: pkg, preferCells: true, clause: c, bctr: new(int)}
 }
 
 func (ex *executor) evalBoolClause(c *Clause, st, old *state, vars map[string]Value) *Term {
@@ -74,6 +78,7 @@ func (ex *executor) evalClause(c *Clause, st, old *state, vars map[string]Value)
 
 func (ex *executor) evalBoolEnv(c *Clause, env *specEnv) *Term {
 	env.clause = c
+	env.bctr = new(int) // bound variables are numbered per clause evaluation
 	return env.evalBool(c.Expr)
 }
 
@@ -156,6 +161,18 @@ func (env *specEnv) lookupIdent(name string) (Value, bool) {
 			return v, true
 		}
 	}
+	if name == "rangeindex" && !env.calleeCtx && ex.curLoop != nil {
+		// inside a clause of loop N, `rangeindex` is the hidden index of that very loop
+		if c := ex.loopRangeCell(ex.curLoop); c != nil {
+			st := env.st
+			if env.cur != nil {
+				st = env.cur
+			}
+			if v, has := st.cells[c]; has {
+				return v, true
+			}
+		}
+	}
 	if env.preferCells && !env.calleeCtx {
 		if c, ok := ex.cellName[name]; ok {
 			if v, has := env.st.cells[c]; has {
@@ -171,6 +188,13 @@ func (env *specEnv) lookupIdent(name string) (Value, bool) {
 	}
 	if !env.calleeCtx {
 		if c, ok := ex.cellName[name]; ok {
+			// inside old(...): a local that is not a parameter keeps its current value (only the
+			// memory it points into is the old one)
+			if env.cur != nil {
+				if v, has := env.cur.cells[c]; has {
+					return v, true
+				}
+			}
 			if v, has := env.st.cells[c]; has {
 				return v, true
 			}
@@ -588,6 +612,9 @@ func (env *specEnv) evalCall(t *ast.CallExpr) Value {
 			n := *env
 			n.st = env.old
 			n.preferCells = false
+			if n.cur == nil {
+				n.cur = env.st
+			}
 			return n.eval(t.Args[0])
 		case "implies":
 			return boolV(Implies(env.evalBool(t.Args[0]), env.evalBool(t.Args[1])))
@@ -620,7 +647,7 @@ func (env *specEnv) evalCall(t *ast.CallExpr) Value {
 					return boolV(Or(parts...))
 				}
 			}
-			bv := BoundVar(vn, BV(64))
+			bv := env.boundVar(vn, BV(64))
 			ne := env.bind(vn, Value{T: intT, C: []*Term{bv}})
 			body := ne.evalBool(t.Args[3])
 			rng := And(BVCmp("bvsle", lo, bv), BVCmp("bvslt", bv, hi))
@@ -639,7 +666,7 @@ func (env *specEnv) evalCall(t *ast.CallExpr) Value {
 			v := Value{T: ty}
 			var bvs []*Term
 			for i, s := range sh {
-				b := BoundVar(fmt.Sprintf("%s.%d", vn, i), s)
+				b := env.boundVar(fmt.Sprintf("%s.%d", vn, i), s)
 				bvs = append(bvs, b)
 				v.C = append(v.C, b)
 			}
@@ -1505,4 +1532,24 @@ func fieldPath(st *types.Struct, name string, depth int) []int {
 		}
 	}
 	return nil
+}
+
+// loopRangeCell: the hidden index variable of a range-over-slice loop (loaded first thing in its header).
+func (ex *executor) loopRangeCell(li *loopInfo) *cellRef {
+	for _, in := range li.header.Instrs {
+		if u, ok := in.(*ssa.UnOp); ok && u.Op == token.MUL {
+			if a, ok := u.X.(*ssa.Alloc); ok && a.Comment == "rangeindex" {
+				return ex.cells[a]
+			}
+		}
+	}
+	return nil
+}
+
+func (env *specEnv) boundVar(name string, s Sort) *Term {
+	if env.bctr == nil {
+		return BoundVar(name, s)
+	}
+	*env.bctr++
+	return TS.mk("bvar", fmt.Sprintf("%s#%d", name, *env.bctr), nil, s)
 }
